@@ -10,12 +10,10 @@ macro_rules
   | `(tactic| ihl $ih $j $t $ht) =>
     `(tactic| (have hh := $ih $j $t $ht trivial; generalize run _ _ $j $t = rr at hh ⊢; obtain ⟨oo, tt⟩ := rr; simp only [] at hh))
 
-theorem tag_lit {s : St} (h : Lit n o0 s) (e : Node) (l : Loc) : Lit n o0 (tagParamAlias e s l) := by
+theorem tag_lit {s : St} (h : Lit n o0 s) (l : Loc) : Lit n o0 (tagParamAlias s l) := by
   unfold tagParamAlias
   split
-  · split
-    · exact h.congr rfl rfl
-    · exact h
+  · exact h.congr rfl rfl
   · exact h
 
 /-- **Every evaluation preserves the literal invariant.** -/
@@ -169,9 +167,9 @@ theorem run_lit (ρ : List FunDef) : ∀ (f : Nat) (j : Job) (s : St), Lit n o0 
         simp only [run]
         refine withFnCall_lit _ _ h (fun s0 hs0 => ?_)
         refine bnd_lit _ _ (ih _ _ hs0 trivial) (fun l t ht => ?_)
-        have htag := tag_lit ht e l
+        have htag := tag_lit ht l
         have hc := htag.clone l
-        generalize hcl : cloneIfNecessary (tagParamAlias e t l) l = rc at hc ⊢
+        generalize hcl : cloneIfNecessary (tagParamAlias t l) l = rc at hc ⊢
         obtain ⟨oc, t2⟩ := rc
         cases oc <;> simp only [bnd] <;> try exact hc.1
         rename_i l2
